@@ -108,13 +108,30 @@ func c01Arg(h *H, symbolic, indexer bool) object.PanObject {
 			}
 			return object.NewPanInt(rt.Int64())
 		}
+		// the step: nil, a small concrete step (queries with a concrete divisor are cheap, so these
+		// paths are decided first), or any int64
+		step := func() object.PanObject {
+			switch rt.Choice(6) {
+			case 0:
+				return object.BuiltInNil
+			case 1:
+				return object.NewPanInt(1)
+			case 2:
+				return object.NewPanInt(-1)
+			case 3:
+				return object.NewPanInt(2)
+			case 4:
+				return object.NewPanInt(-3)
+			}
+			return object.NewPanInt(rt.Int64())
+		}
 		switch c {
 		case -3:
 			return object.NewPanArr(object.NewPanInt(rt.Int64()))
 		case -2:
-			return object.NewPanArr(object.NewPanRange(bound(), bound(), bound()))
+			return object.NewPanArr(object.NewPanRange(bound(), bound(), step()))
 		}
-		return object.NewPanRange(bound(), bound(), bound())
+		return object.NewPanRange(bound(), bound(), step())
 	}
 	switch c {
 	case 0:
